@@ -21,7 +21,7 @@
    total_balance_exact needs redeemed <= issued (unforgeability: every spent proof was issued) and totals below 2^64.
 *)
 From Coq Require Import ZArith List Bool.
-From Verif Require Import Model Sem InvDb InvSwap InvMint InvMelt Corollaries Queries Footprint HRel Global GlobalQuote GlobalValue GlobalErr GlobalQuery GlobalMelt GlobalKeys Cuts CutOrder Conc Races GlobalBalance.
+From Verif Require Import Model Sem InvDb InvSwap InvMint InvMelt Corollaries Queries Footprint HRel Global GlobalQuote GlobalValue GlobalErr GlobalQuery GlobalMelt GlobalKeys Cuts CutOrder Conc Races GlobalBalance GlobalLedger Reconf Trace Admin AdminProofs.
 Import ListNotations.
 Open Scope Z_scope.
 
@@ -52,6 +52,32 @@ Theorem C16_honest_history_ok : clients_honest {| c_max_mint := 0; c_max_melt :=
         (vS w, vR w, vP w) = (128, 96, 0)).
 Proof. exact @honest_history_ok. Qed.
 Print Assumptions C16_honest_history_ok.
+
+Theorem C16_admin_total_is_total_balance : forall w : world,
+       exists iss red : list (Z * Z),
+         admin_step w ATotal =
+         (fst (admin_step w ATotal),
+          ATotals iss (sum64 (map snd iss)) red (sum64 (map snd red))
+            (sub64 (sum64 (map snd iss)) (sum64 (map snd red)))) /\
+         snd (run total_balance no_fault (reset_calls w)) =
+         Done (Ok (sub64 (sum64 (map snd iss)) (sum64 (map snd red)))) /\
+         tsum (map snd iss) = issued_total (w_db w) /\ tsum (map snd red) = redeemed_total (w_db w).
+Proof. exact @admin_total_is_total_balance. Qed.
+Print Assumptions C16_admin_total_is_total_balance.
+
+Theorem C16_admin_issued_view : forall w : world,
+       exists rows : list (Z * Z),
+         snd (admin_step w (AIssued None)) = AAll rows (sum64 (map snd rows)) /\
+         tsum (map snd rows) = issued_total (w_db w).
+Proof. exact @admin_issued_view. Qed.
+Print Assumptions C16_admin_issued_view.
+
+Theorem C16_admin_redeemed_view : forall w : world,
+       exists rows : list (Z * Z),
+         snd (admin_step w (ARedeemed None)) = AAll rows (sum64 (map snd rows)) /\
+         tsum (map snd rows) = redeemed_total (w_db w).
+Proof. exact @admin_redeemed_view. Qed.
+Print Assumptions C16_admin_redeemed_view.
 
 Theorem C16_issued_view_total : forall d : db,
        tsum (map snd (sum_by_ks (map (fun s : srow => (s_ks s, s_amount s)) (d_sigs d)) [])) = issued_total d.
@@ -112,7 +138,7 @@ Proof. exact @huge_quote_refused. Qed.
 Print Assumptions C16_huge_quote_refused.
 
 Theorem C16_info_disabled_iff : forall (cfg : config) (w : world) (bal : Z) (w1 : world),
-       run total_balance no_fault w = (w1, Done (Ok bal)) ->
+       run total_balance no_fault (after_seed w) = (w1, Done (Ok bal)) ->
        exists b : bool,
          run (info_disabled cfg) no_fault w = (w1, Done (Ok b)) /\ (b = true <-> 0 < c_max_balance cfg <= bal).
 Proof. exact @info_disabled_iff. Qed.
